@@ -1,6 +1,7 @@
 """Raw os_log record generator and reference decoder (shared by C16 and C03), written from the field table of
 the format, independent of the repository's decoder."""
 import copy
+import random
 from datetime import datetime, timedelta, timezone
 
 # key -> (decoded field name, kind)
@@ -355,6 +356,31 @@ def compare(decoded, exp):
     return bad
 
 
+_ORDER = random.Random(20261003)
+
+
+def reordered(obj, how):
+    """The same plist value with the keys of every dict in another order (a dump's writer need not sort them: binary
+    plists written by the kernel side list keys in hash order).  how: 'as-is', 'sorted', 'reversed', 'shuffled'."""
+    if isinstance(obj, dict):
+        keys = list(obj)
+        if how == 'sorted':
+            keys.sort()
+        elif how == 'reversed':
+            keys.reverse()
+        elif how == 'shuffled':
+            _ORDER.shuffle(keys)
+        return {k: reordered(obj[k], how) for k in keys}
+    if isinstance(obj, list):
+        return [reordered(x, how) for x in obj]
+    return copy.deepcopy(obj)
+
+
 def fresh(raw):
-    """The decoder consumes (pops from) the raw dict: always hand it a deep copy."""
-    return copy.deepcopy(raw)
+    """The decoder consumes (pops from) the raw dict: always hand it a deep copy.  The copy lists the keys of every
+    dict in one of four orders, in rotation (the meaning of a record does not depend on the order of its keys)."""
+    fresh.turn += 1
+    return reordered(raw, ('as-is', 'shuffled', 'sorted', 'reversed', 'shuffled')[fresh.turn % 5])
+
+
+fresh.turn = 0
